@@ -34,7 +34,7 @@ namespace rlbox {
            template<typename, typename>                                        \
            typename T_C_Wrap>                                                  \
   friend inline tainted<T_C_Lhs, T_C_Sbx> sandbox_static_cast(                 \
-    const T_C_Wrap<T_C_Rhs, T_C_Sbx>& rhs) noexcept;
+    const T_C_Wrap<T_C_Rhs, T_C_Sbx>& rhs);
 
 /**
  * @brief The equivalent of a reinterpret_cast but operates on sandboxed values.
@@ -86,13 +86,25 @@ template<typename T_Lhs,
          template<typename, typename>
          typename T_Wrap>
 inline tainted<T_Lhs, T_Sbx> sandbox_static_cast(
-  const T_Wrap<T_Rhs, T_Sbx>& rhs) noexcept
+  const T_Wrap<T_Rhs, T_Sbx>& rhs)
 {
   static_assert(detail::rlbox_is_wrapper_v<T_Wrap<T_Rhs, T_Sbx>>,
                 "sandbox_static_cast on incompatible types");
 
   tainted<T_Rhs, T_Sbx> taintedVal = rhs;
   auto raw = static_cast<T_Lhs>(taintedVal.INTERNAL_unverified_safe());
+  if constexpr (std::is_pointer_v<T_Lhs> && std::is_pointer_v<T_Rhs>) {
+    // Within a class hierarchy a static_cast moves the pointer (to or from a
+    // base that is not the first): it has to stay in the sandbox it was in
+    auto from = reinterpret_cast<const void*>(
+      taintedVal.INTERNAL_unverified_safe());
+    auto to = reinterpret_cast<const void*>(raw);
+    if (to != from) {
+      detail::dynamic_check(
+        to == nullptr || rlbox_sandbox<T_Sbx>::is_in_same_sandbox(from, to),
+        "sandbox_static_cast moved a pointer out of sandbox memory");
+    }
+  }
   auto ret = tainted<T_Lhs, T_Sbx>::internal_factory(raw);
   return ret;
 }
